@@ -23,7 +23,7 @@ LEVEL_NOTE = ('trusted: the reference codec R1 (unit-tested), CPython; names tha
               '(C16) and counted as not-trashed here; dates outside 4-digit years are out of scope')
 RULE = ('names: each byte b in 1..255 (b != "/") as "b", "ab", "abc" (bytes >= 0x80 inside valid UTF-8 sequences: all 2-byte code '
         'points on a stride, 3- and 4-byte sequences covering every lead and continuation byte), ordered pairs (thorough: triples) '
-        'of the special set, lengths 1/243..255, depth 1-3 with special directory names; x {home, topdir} ; dates {1970,2000-02-29,'
+        'of the special set, lengths 1/243..255, depth 1-3 with special directory names; x {home, topdir} ; entry kinds {directory, symlink to a file / directory elsewhere, dangling, ..} x 2 depths x 2 names; home trash on its own volume x 3 depths x 4 names; dates {1970,2000-02-29,'
         '2038,9999} x microseconds {0,999999}; non-trivial = trash-put succeeded and wrote an info; distinct = outcome class x name class x form')
 SPECIAL = ['%', '+', ' ', '\n', '\r', '\t', '=', '[', ']', '#', '?', '&', ';', ':', '\\', '"', "'", '*', '~', '%25', '%2F', '%0A']
 DATES = ['1970-01-01T00:00:00', '2000-02-29T23:59:59', '2038-01-19T03:14:08', '9999-12-31T23:59:59']
@@ -87,6 +87,15 @@ def cases(tier):
         for d in DATES:
             for us in (0, 999999):
                 out.append({'name': 'dated', 'form': form, 'dirs': [], 'date': d, 'us': us})
+        # the location recorded is the entry's own, whatever the entry is: directories, and symbolic links whose target lives elsewhere
+        for kind in ('dir', 'link-file-elsewhere', 'link-dir-elsewhere', 'link-dangling', 'link-up'):
+            for dirs in ([], ['d 1', 'e']):
+                for n in ('f', 'a b%'):
+                    out.append({'name': n, 'form': form, 'dirs': dirs, 'date': '2024-05-06T07:08:09', 'us': 0, 'kind': kind})
+    # a home trash that lives on its own volume (/home is a mount point): absolute Paths, read back unchanged by every reader
+    for dirs in ([], ['d 1'], ['home', 'u']):
+        for n in ('f', '%41', 'a b', 'é'):
+            out.append({'name': n, 'form': 'home-ownvol', 'dirs': dirs, 'date': '2024-05-06T07:08:09', 'us': 0})
     return out
 
 
@@ -114,12 +123,20 @@ def nclass(n):
 def run_case(c):
     top = '/mnt/v1' if c['form'] == 'topdir' else '/home/u'
     B = top + '/w' + ''.join('/' + d for d in c['dirs'])
-    W = scen.base_world(mounts=['/', '/mnt/v1'], cwd=B)
+    W = scen.base_world(mounts=['/', '/mnt/v1'] + (['/home'] if c['form'] == 'home-ownvol' else []), cwd=B)
     W.dir(B)
     E = B + '/' + c['name']
-    W.file(E, 'payload\n')
+    kind = c.get('kind', 'file')
+    if kind == 'file':
+        W.file(E, 'payload\n')
+    elif kind == 'dir':
+        W.dir(E).file(E + '/inner', 'inner\n')
+    else:
+        W.dir(top + '/elsewhere').file(top + '/elsewhere/target', 'target\n').dir(top + '/elsewhere/tdir').file(top + '/elsewhere/tdir/x', 'x\n')
+        up = '../' * (len(c['dirs']) + 1)
+        W.link(E, {'link-file-elsewhere': up + 'elsewhere/target', 'link-dir-elsewhere': top + '/elsewhere/tdir', 'link-dangling': up + 'elsewhere/none', 'link-up': '..'}[kind])
     now = c['date'] + ('.%06d' % c['us'] if c['us'] else '')
-    td = scen.HOME_TRASH if c['form'] == 'home' else '/mnt/v1/.Trash-0'
+    td = scen.HOME_TRASH if c['form'].startswith('home') else '/mnt/v1/.Trash-0'
     Eb = E.encode('utf-8', 'surrogateescape')
     with cell.Sandbox(W.spec()) as sb:
         before = sb.snapshot()
@@ -128,7 +145,7 @@ def run_case(c):
         ni = scen.new_infos(before, after)
         detail = {'name': c['name'], 'exit': r.exit, 'err': r.err[-300:]}
         cls = nclass(c['name'])
-        dims = '%s|%s|depth=%d' % (cls, c['form'], len(c['dirs']))
+        dims = '%s|%s|depth=%d%s' % (cls, c['form'], len(c['dirs']), '|' + c['kind'] if c.get('kind') else '')
         if r.exit != 0 or not ni:
             st = scen.classify_put(before, after, E)
             if st['state'] != 'UNTOUCHED':
@@ -148,7 +165,7 @@ def run_case(c):
                     'nontrivial': 'bad|' + dims, 'detail': dict(detail, bad=bad)}
         if tdir != td:
             return {'verdict': 'dontcare', 'klass': 'other-trash-dir(C07)', 'detail': detail}
-        if c['form'] == 'home':
+        if c['form'].startswith('home'):
             loc = p['path']
             okform = p['path_raw'].startswith(b'/')
         else:
